@@ -143,6 +143,19 @@ def check_header(rep, prog):
                 bad = bad or "header consumes %r bytes" % ev(I.obj(st).attrs["index"], buf)
     comp = a.get("comp")
     okc = any(pelx.as_slice(x) == (Const(4), Const(16)) for x in walk(comp))
+    # the component name as a function of the header bytes, evaluated: ASCII text of bytes 4..15 with bytes >= 0x80 dropped
+    # (never an exception), trailing NULs and then blanks removed
+    for fld in (b"POWR\0\0\0\0\0\0\0\0", b"IICS        ", b"FA\xffNS\0\0\0\0\0\0\0", b"\x80\x81INFO \0\0\0\0\0", b"ERRL \0 \0\0\0\0\0", b"\0" * 12, b"abc def ghi "):
+        hdr = b"\x02\x20\x01\x42" + fld + b"\0" * 16
+        want_c = str(fld, encoding="ascii", errors="ignore").rstrip("\0").rstrip(" ")
+        try:
+            got_c = evaluate(comp, {DATA: hdr, Op("len", DATA): len(hdr)})
+        except CannotEval as e:
+            raise AnalysisError("component name summary not evaluable: %s" % e)
+        except UnicodeError as e:
+            got_c = "<raises %s>" % type(e).__name__
+        if got_c != want_c and bad is None:
+            bad = "component field %r is shown as %r, expected %r" % (fld, got_c, want_c)
     rep.check(bad is None and okc, rule, "32-byte header: ver@0 hdr_len@1 time_flg@2 endian@3 comp@4/12 size@20 times_wrap@24 next_free@28; False if <32 bytes",
               "TraceBufferHeader.read", "read", bad or "component name is not taken from bytes[4:16]: %r" % (comp,))
 
@@ -374,6 +387,14 @@ def check_rendering(rep, prog):
     oklk = len(lk) == 1 and (lk[0].data[2] if lk[0].kind == "methcall" else lk[0].data[1])[-1] == syms["hash_value"]
     rep.check(oklk, rule, "the trace string is looked up by the entry's hash value", TR + "_format_trace_entry", "string_file.get_trace_string(hash_value)",
               "trace string is not looked up by the entry's hash")
+    # the message of a found string always goes through get_message (the %-format resolves '%%' even without arguments)
+    gm = [e for e in I.events if e.kind == "methcall" and e.data[1] == "get_message"]
+    tstr0 = Op("m:get_trace_string", sfile, syms["hash_value"])
+    found0 = compare("isnot", tstr0, NONE)
+    okgm = bool(gm) and any(implies(found0, e.guard)[0] for e in gm)
+    rep.check(okgm, rule, "whenever a trace string is found its message is produced by get_message(arguments)", TR + "_format_trace_entry",
+              "trace_string.get_message(args)", "the message of a found trace string is not always produced by get_message() (it is skipped under "
+              "%s): format strings without arguments keep their '%%%%' escapes" % ([repr(e.guard)[:100] for e in gm][:1],))
     # hexdump iff binary or no string or partial;  warning iff partial
     hd = [i for i in items[1:] if any(isinstance(x, Op) and x.op == "call:pel.hexdump.hexdump" for x in walk(i[2] if i[0] == "rep" else i[1]))]
     warn = [i for i in items[1:] if i[0] == "v" and any(is_const(x, str) and "Partial match" in x.v for x in walk(i[1]))]
